@@ -72,11 +72,6 @@ func labIso(e labEnv) {
 		w.put(L(sxInt(14), sxInt(int64(c0)), sxInt(int64(k))), L(out))
 		tags["echo_id_sequences"]++
 	}
-	ns := 40
-	if e.thorough() {
-		ns = 400
-	}
-	sharedScenarios(r, ns, w, tags, e.t)
 	must(w.close())
 	writeDist(e, "iso", tags)
 }
